@@ -18,6 +18,9 @@ import EgoVerif.C43.Model
    A su sadmin u d t ops       Authorized                                        → 1 | 0
    a u name mask               AuthDSN                                           → 1 | 0
    Q u admin idmask op d t     row request (op = r|i|u|d)                        → pass | 403 | nodsn
+   q u admin idmask op d t fmt quser   row request as it arrives over HTTP: fmt = n (default rows) | p (?abstract=true)
+                               | h (Accept: application/vnd.ego.rows.abstract+json), quser = the ?user= value
+                               (hex) or "_" when the parameter is absent          → pass | 403 | nodsn
    L u d t                     the table_perms rows for (u,d,t)                  → <n>:<flags>,<flags>… sorted -/
 namespace EgoVerif.C43
 
@@ -39,6 +42,21 @@ def sortStr (l : List String) : List String :=
       | [] => [x]
       | y :: ys => if y < x then y :: ins ys else x :: y :: ys
     ins acc) []
+
+def rowOpOf (op : String) : Option RowOp :=
+  if op == "r" then some .read else if op == "i" then some .insert
+  else if op == "u" then some .update else if op == "d" then some .delete else none
+
+/-- row format field of a `q` line: abstract? -/
+def fmtOf (f : String) : Option Bool :=
+  if f == "n" then some false else if f == "p" || f == "h" then some true else none
+
+/-- `?user=` field of a `q` line: "_" = absent -/
+def quserOf (h : String) : Option (Option Name) :=
+  if h == "_" then some none else (nm h).map some
+
+def statusStr : Status → String
+  | .pass => "pass" | .forbidden => "403" | .noDSN => "nodsn"
 
 def handleFile (st : St) (line : String) : St × String :=
   match fields line with
@@ -107,6 +125,11 @@ def handleFile (st : St) (line : String) : St × String :=
       (st, match rowRequest st u (adm == "1") (actOfNat idm) rop d t with
            | .pass => "pass" | .forbidden => "403" | .noDSN => "nodsn")
     | _, _, _, _, _ => (st, "bad-input")
+  | ["q", u, adm, idm, op, d, t, f, qu] =>
+    match nm u, idm.toNat?, rowOpOf op, nm d, nm t, fmtOf f, quserOf qu with
+    | some u, some idm, some rop, some d, some t, some abs, some quser =>
+      (st, statusStr (rowRequestHTTP st u (adm == "1") (actOfNat idm) rop abs quser d t))
+    | _, _, _, _, _, _, _ => (st, "bad-input")
   | ["L", u, d, t] =>
     match nm u, nm d, nm t with
     | some u, some d, some t =>
@@ -120,10 +143,6 @@ def permsLine (line : String) : Bool :=
   match fields line with
   | op :: _ => op == "G" || op == "R" || op == "C" || op == "X" || op == "B" || op == "L"
   | [] => false
-
-def rowOpOf (op : String) : Option RowOp :=
-  if op == "r" then some .read else if op == "i" then some .insert
-  else if op == "u" then some .update else if op == "d" then some .delete else none
 
 /-- database DSN service: DSN operations and queries through `dbReadDSN` (the cache) -/
 def handleDb (s : DSt) (line : String) : DSt × String :=
@@ -173,6 +192,12 @@ def handleDb (s : DSt) (line : String) : DSt × String :=
       let r := dbRowRequest s u (adm == "1") (actOfNat idm) rop d t
       (r.1, match r.2 with | .pass => "pass" | .forbidden => "403" | .noDSN => "nodsn")
     | _, _, _, _, _ => (s, "bad-input")
+  | ["q", u, adm, idm, op, d, t, f, qu] =>
+    match nm u, idm.toNat?, rowOpOf op, nm d, nm t, fmtOf f, quserOf qu with
+    | some u, some idm, some rop, some d, some t, some abs, some quser =>
+      let r := dbRowRequestHTTP s u (adm == "1") (actOfNat idm) rop abs quser d t
+      (r.1, statusStr r.2)
+    | _, _, _, _, _, _, _ => (s, "bad-input")
   | _ => (s, "bad-op")
 
 inductive Mode where
